@@ -26,7 +26,7 @@ def run(ctx):
     names = enzymes_for_tier(ctx)
     for kc in generic_classes(ctx, names):
         if geometry(ctx, kc, "C01.generic-geometry"):
-            generic_shape(ctx, kc, "C01.generic-shape")
+            ctx.guard(generic_shape, ctx, kc, "C01.generic-shape")
     r.floor("C01.generic-geometry.groups", 8)
     r.floor("C01.generic-shape", 8)
     run_kernels(ctx, ["K7", "K8", "K10", "K14", "K15", "K0"], "C01")
